@@ -375,3 +375,9 @@ SWEEP = ["concurrent/test_bounded_queue.cpp",
          "concurrent/test_bounded_queue_press_mpmc.cpp",
          "concurrent/test_sched_interface.cpp",
          "test_executor.cpp"]
+
+
+# name anchors (validated by tools/rename_sweep.py; a vanished name is exit 2, see core.check_anchor_names)
+ANCHORS = {
+    'wake_all': ['^babylon::Futex(<|$)'],
+}
